@@ -87,6 +87,9 @@ namespace vf{
 // C01 oracle: surrogate reproduces stored values at every loaded point through evaluateBatch / evaluate / evaluateFast.
 // returns the largest scaled error observed (error / tolerance); reports violations with keys "<prefix>:<route>:<family>..."
 double check_reproduction(TasmanianSparseGrid const &g, CaseCtx &c, Rng &rng, std::string const &prefix, std::string const &after);
+// points on the boundary of a transformed domain moved two ulps towards the interior (rounding of the map back to canonical coordinates
+// must not push a node out of the support of compactly supported bases); identity when no domain transform is set
+std::vector<double> interior_nudged(TasmanianSparseGrid const &g, std::vector<double> const &x);
 std::vector<double> history_scale(TasmanianSparseGrid const &g, int output, uint64_t seed);
 // monitors
 void mon_c01(CaseCtx&, Rng&); void mon_c02(CaseCtx&, Rng&); void mon_c03(CaseCtx&, Rng&); void mon_c04(CaseCtx&, Rng&);
